@@ -13,9 +13,9 @@ MOD = __name__
 RULE = ("Hypothesis filter definitions restricted to the forms C19 lists (header with string values, exists/notexists 1-4 names, "
         "size, envelope with lists, address, body with transform, currentdate with/without relational match, :not variants, 1-4 "
         "conditions, anyof/allof; actions with positional strings and value-less tags) with values over text incl. commas, spaces, "
-        "brackets, non-ASCII; created by addfilter and by updatefilter; oracle: get_filter_conditions / get_filter_actions / "
-        "get_filter_matchtype return exactly what was supplied - on the original set, on a set reloaded from str(fs), and after "
-        "disablefilter. Non-trivial = a value with comma/bracket/space/non-ASCII, or >= 2 conditions, or an address condition; "
+        "brackets, non-ASCII; created by addfilter and by updatefilter (same name, renamed, on an enabled and on a disabled filter); oracle: get_filter_conditions / get_filter_actions / "
+        "get_filter_matchtype return exactly what was supplied - on the original set, on a set reloaded from str(fs), after "
+        "disablefilter, and after re-enabling a filter that was updated while disabled. Non-trivial = a value with comma/bracket/space/non-ASCII, or >= 2 conditions, or an address condition; "
         "distinct by definition.")
 
 COND_KINDS = ["header", "header", "exists", "size", "envelope", "address", "body", "currentdate"]
@@ -71,18 +71,31 @@ def compare(defn, obs, where):
     return out
 
 
-def check(defn, via_update):
+MODES = ["add", "update", "update-rename", "disabled-update", "disabled-update-rename"]
+
+
+def check(defn, mode):
+    if mode is True:
+        mode = "update"
+    elif mode is False:
+        mode = "add"
     fails = []
+    name = "f"
     try:
         fs = fsmodel.new_set()
-        if via_update:
-            fs.addfilter("f", [("Subject", ":is", "x")], [("keep",)])
-            fs.updatefilter("f", "f", defn["conditions"], defn["actions"], defn["matchtype"])
-        else:
+        if mode == "add":
             fs.addfilter("f", defn["conditions"], defn["actions"], defn["matchtype"])
+        else:
+            fs.addfilter("f", [("Subject", ":is", "x")], [("keep",)])
+            if mode.startswith("disabled"):
+                fs.disablefilter("f")
+            if mode.endswith("rename"):
+                name = "g"
+            fs.updatefilter("f", name, defn["conditions"], defn["actions"], defn["matchtype"])
     except Exception as e:  # noqa: BLE001
         return [("factory-raises|" + impl.exc_bucket(e), {"definition": defn, "exc": repr(e)[:200]})]
-    fails += compare(defn, observe(fs, "f"), "original")
+    where0 = "disabled-by-history" if mode.startswith("disabled") else "original"
+    fails += compare(defn, observe(fs, name), where0)
     # reloaded
     text = str(fs)
     p = impl.Parser()
@@ -94,15 +107,18 @@ def check(defn, via_update):
         fs2 = fsmodel.new_set()
         try:
             fs2.from_parser_result(p)
-            fails += compare(defn, observe(fs2, "f"), "reloaded")
+            fails += compare(defn, observe(fs2, name), "reloaded")
         except Exception as e:  # noqa: BLE001
             fails.append(("reloaded|load-raises|" + impl.exc_bucket(e), {"definition": defn, "exc": repr(e)[:200]}))
     else:
         fails.append(("reloaded|rendered-script-not-accepted", {"definition": defn, "text": text}))
-    # disabled
+    # disabled / re-enabled
     try:
-        fs.disablefilter("f")
-        fails += compare(defn, observe(fs, "f"), "disabled")
+        if mode.startswith("disabled"):
+            fs.enablefilter(name)
+            fails += compare(defn, observe(fs, name), "re-enabled")
+        fs.disablefilter(name)
+        fails += compare(defn, observe(fs, name), "disabled")
     except Exception as e:  # noqa: BLE001
         fails.append(("disabled|raises|" + impl.exc_bucket(e), {"definition": defn, "exc": repr(e)[:200]}))
     return fails
@@ -122,11 +138,11 @@ def worker(arg):
 
     @pspace.hyp_settings(n)
     @hseed(sd)
-    @given(F.definition(F.MILD, COND_KINDS, ACT_KINDS, lists_ok=False, tags_with_values=False), st.booleans())
+    @given(F.definition(F.MILD, COND_KINDS, ACT_KINDS, lists_ok=False, tags_with_values=False), st.sampled_from(MODES))
     def body(defn, via_update):
         fails = check(defn, via_update)
         nt = nontrivial(defn)
-        classes = ["via:update" if via_update else "via:add"]
+        classes = ["via:" + via_update]
         for c in defn["conditions"]:
             h = c[0]
             classes.append("cond:" + (h if h.replace("not", "", 1) in F.SPECIAL else "header"))
@@ -180,7 +196,7 @@ def shrink(case, bucket, budget):
 def main(tier, seed, t0):
     quick = tier == "quick"
     col = core.run_shards(worker, [(seed * 1000 + 800 + k, 600 if quick else 8000) for k in range(16)])
-    need = ["via:add", "via:update", "cond:header", "cond:exists", "cond:notexists", "cond:size", "cond:envelope", "cond:address",
+    need = ["via:" + m for m in MODES] + [ "cond:header", "cond:exists", "cond:notexists", "cond:size", "cond:envelope", "cond:address",
             "cond:body", "cond:currentdate", "act:fileinto", "act:redirect", "act:stop", "act:keep"]
     missing = [c for c in need if not col.classes.get(c)]
     if missing:
